@@ -271,6 +271,11 @@ def apply_section_dt(dt, value):
         return {"W2": value}
     if dt == "zcv.dt.counting_section":
         return value
+    if dt == "zcv.dt.picky":
+        for v in value["attrs"].values():
+            if v == "REJECTME" or (isinstance(v, list) and "REJECTME" in v):
+                raise _Reject("section-datatype", promised=False)
+        return {"W": value}
     if dt == "zcv.dt.reject":
         raise _Reject("section-datatype", promised=False)
     raise KeyError(dt)
